@@ -7,6 +7,7 @@ import (
 	"go/types"
 
 	"golang.org/x/tools/go/ssa"
+	"golang.org/x/tools/go/ssa/ssautil"
 )
 
 // Value-flow must-pass analysis over SSA.
@@ -39,6 +40,30 @@ type flowWalker struct {
 	witness []string
 	unknown string
 	nodes   int
+	up      int
+	callers map[*ssa.Function][]ssa.CallInstruction
+}
+
+// callersOf lists the static call sites of fn in the repository's code.
+func (w *flowWalker) callersOf(fn *ssa.Function) []ssa.CallInstruction {
+	if w.callers == nil {
+		w.callers = map[*ssa.Function][]ssa.CallInstruction{}
+		for f := range ssautil.AllFunctions(w.c.P.SSA()) {
+			if !w.c.P.IsRepoFunc(f) {
+				continue
+			}
+			for _, b := range f.Blocks {
+				for _, in := range b.Instrs {
+					if ci, ok := in.(ssa.CallInstruction); ok {
+						if callee := ci.Common().StaticCallee(); callee != nil {
+							w.callers[callee] = append(w.callers[callee], ci)
+						}
+					}
+				}
+			}
+		}
+	}
+	return w.callers[fn]
 }
 
 type flowKey struct {
@@ -234,11 +259,39 @@ func (w *flowWalker) walk(v ssa.Value, ctx *flowCtx, depth int) flowVerdict {
 		return flowAll
 	case *ssa.Parameter:
 		if ctx == nil {
-			if x.Parent() == w.root {
-				w.note(x, "parameter "+x.Name())
+			// a parameter of the function the walk is in: the value comes from its static
+			// callers (at most three levels up); a function nobody calls statically (an
+			// entry point, a handler stored in a table) receives raw input
+			fn := x.Parent()
+			idx := -1
+			for i, p := range fn.Params {
+				if p == x {
+					idx = i
+				}
+			}
+			sites := w.callersOf(fn)
+			if len(sites) == 0 || w.up >= 3 || idx < 0 {
+				w.note(x, "parameter "+x.Name()+" of "+fn.Name())
 				return flowSkips
 			}
-			return flowAll
+			w.up++
+			defer func() { w.up-- }()
+			res := flowAll
+			for _, site := range sites {
+				args := site.Common().Args
+				if idx >= len(args) {
+					w.unknown = "parameter not mapped at " + w.c.P.Pos(site.Pos())
+					return flowUnknown
+				}
+				switch w.walk(args[idx], nil, depth+1) {
+				case flowSkips:
+					w.note(site, "argument of "+fn.Name())
+					return flowSkips
+				case flowUnknown:
+					res = flowUnknown
+				}
+			}
+			return res
 		}
 		// map to the argument of the call we descended through
 		idx := -1
